@@ -65,6 +65,22 @@ func (c *c17InnerCommit) Define(api frontend.API) error {
 	return nil
 }
 
+// a commitment over private wires only (what range checks and lookups produce)
+type c17InnerPrivCommit struct {
+	P, Q frontend.Variable
+	N    frontend.Variable `gnark:",public"`
+}
+
+func (c *c17InnerPrivCommit) Define(api frontend.API) error {
+	api.AssertIsEqual(api.Mul(c.P, c.Q), c.N)
+	cm, err := api.(frontend.Committer).Commit(c.P, c.Q)
+	if err != nil {
+		return err
+	}
+	api.AssertIsDifferent(cm, c.N)
+	return nil
+}
+
 // another inner circuit with the same public interface
 type c17Other struct {
 	P, Q frontend.Variable
@@ -332,6 +348,7 @@ func runC17(args []string) int {
 	}{
 		{"mul", func() frontend.Circuit { return &c17Inner{} }, func(p, q int64) frontend.Circuit { return &c17Inner{P: p, Q: q, N: p * q} }},
 		{"mul+commitment", func() frontend.Circuit { return &c17InnerCommit{} }, func(p, q int64) frontend.Circuit { return &c17InnerCommit{P: p, Q: q, N: p * q} }},
+		{"mul+private-only commitment", func() frontend.Circuit { return &c17InnerPrivCommit{} }, func(p, q int64) frontend.Circuit { return &c17InnerPrivCommit{P: p, Q: q, N: p * q} }},
 	} {
 		ccs, err := frontend.Compile(inF, r1cs.NewBuilder[constraint.U64], inner.mk())
 		if err != nil {
